@@ -162,5 +162,66 @@ mod verif_kani_tzstring {
             }
         }
     }
+
+    // ---- AlternateTime::find_local_time_type_from_local: gap / fold classification of a wall-clock time under a POSIX rule ---------------
+    // callees through their contracts: RuleDay::unix_time and RuleDay::transition_date (Verus unit tzrule) read a table filled with ARBITRARY
+    // values, DateTime::timestamp returns an arbitrary wall-clock second count.  Specification, independent of the code's case analysis:
+    // a candidate offset o is valid for the wall-clock value L iff the zone really is at offset o at the instant L - o.
+    // Data hypothesis: the two transitions of the year are separated and in the order their months say.  The two boundary seconds
+    // (each transition read with the offset in force before it) are excepted, as in the property text.
+    struct LTab { magic: u64, cy: i32, s0: i64, e0: i64, ms: usize, me: usize, local: i64, bad_call: bool }
+    static mut LTAB: LTab = LTab { magic: 0xC0DE_5EED_D15C_000B, cy: 0, s0: 0, e0: 0, ms: 1, me: 1, local: 0, bad_call: false };
+    fn st_unix_time0(d: &RuleDay, year: i32, day_time_in_utc: i64) -> i64 {
+        unsafe { if year != LTAB.cy || day_time_in_utc != 0 { LTAB.bad_call = true; } if *d == RuleDay::Julian1WithoutLeap(1) { LTAB.s0 } else { LTAB.e0 } }
+    }
+    fn st_transition_date(d: &RuleDay, year: i32) -> (usize, i64) {
+        unsafe { if year != LTAB.cy { LTAB.bad_call = true; } if *d == RuleDay::Julian1WithoutLeap(1) { (LTAB.ms, 1) } else { (LTAB.me, 1) } }
+    }
+    fn st_timestamp<Tz: crate::TimeZone>(_x: &crate::DateTime<Tz>) -> i64 { unsafe { LTAB.local } }
+
+    // fns: AlternateTime::find_local_time_type_from_local (classification for every table of transition instants; hypothesis: separated transitions; boundary seconds excepted)
+    // assumes: RuleDay::unix_time, RuleDay::transition_date, DateTime::timestamp
+    #[kani::proof]
+    #[kani::unwind(5)]
+    #[kani::stub(RuleDay::unix_time, st_unix_time0)]
+    #[kani::stub(RuleDay::transition_date, st_transition_date)]
+    #[kani::stub(crate::DateTime::timestamp, st_timestamp)]
+    fn vk_tzrule_local_classification() {
+        let std_off: i32 = kani::any(); let dst_off: i32 = kani::any();
+        kani::assume(std_off > -86_400 && std_off < 86_400 && dst_off > -86_400 && dst_off < 86_400 && std_off != dst_off);
+        let (st, et): (i32, i32) = (kani::any(), kani::any());
+        let a = AlternateTime::new(LocalTimeType::new(std_off, false, None).unwrap(), LocalTimeType::new(dst_off, true, None).unwrap(),
+                                   RuleDay::Julian1WithoutLeap(1), st, RuleDay::Julian1WithoutLeap(2), et);
+        kani::assume(a.is_ok());
+        let a = a.unwrap();
+        let d = crate::NaiveDate::from_yo_opt(kani::any(), kani::any()); kani::assume(d.is_some());
+        let wall = d.unwrap().and_hms_opt(0, 0, 0).unwrap();
+        let (s0, e0, l): (i64, i64, i64) = (kani::any(), kani::any(), kani::any());
+        let lim = 70_000_000_000_000_000i64;                       // |unix_time| < 7e16 (contract of RuleDay::unix_time); timestamps of valid date-times are far inside
+        kani::assume(s0 > -lim && s0 < lim && e0 > -lim && e0 < lim && l > -lim && l < lim);
+        let (ms, me): (usize, usize) = (kani::any(), kani::any());
+        kani::assume(ms >= 1 && ms <= 12 && me >= 1 && me <= 12);
+        unsafe { LTAB.cy = crate::Datelike::year(&wall); LTAB.s0 = s0; LTAB.e0 = e0; LTAB.ms = ms; LTAB.me = me; LTAB.local = l; }
+        let r = a.find_local_time_type_from_local(wall);
+        assert!(!unsafe { LTAB.bad_call }, "both rule days are evaluated in the year of the wall-clock value, at local midnight");
+        let got = match r { Ok(x) => x, Err(_) => { assert!(false, "a classification is returned"); return; } };
+        let (so, do_) = (std_off as i64, dst_off as i64);
+        let (ta, tb) = (s0 + st as i64, e0 + et as i64);           // wall-clock readings of the two transitions with the offset in force before them
+        let (ta2, tb2) = (ta + do_ - so, tb + so - do_);           // ... and with the offset in force after them
+        let (s_utc, e_utc) = (ta - so, tb - do_);
+        let start_first = ms < me;
+        let dst_at = |i: i64| if start_first { s_utc <= i && i < e_utc } else { i < e_utc || i >= s_utc };
+        let hyp = if start_first { core::cmp::max(ta, ta2) < core::cmp::min(tb, tb2) } else { core::cmp::max(tb, tb2) < core::cmp::min(ta, ta2) };
+        kani::cover!(hyp && matches!(got, crate::MappedLocalTime::None)); kani::cover!(hyp && matches!(got, crate::MappedLocalTime::Ambiguous(..)) && !start_first);
+        if hyp && l != ta && l != tb {
+            let std_valid = !dst_at(l - so); let dst_valid = dst_at(l - do_);
+            match (std_valid, dst_valid) {
+                (true, true) => { let (first, second) = if so > do_ { (a.std, a.dst) } else { (a.dst, a.std) }; assert!(got == crate::MappedLocalTime::Ambiguous(first, second), "both readings exist: both, the earlier instant (larger offset) first"); }
+                (true, false) => assert!(got == crate::MappedLocalTime::Single(a.std), "only the standard-time reading exists"),
+                (false, true) => assert!(got == crate::MappedLocalTime::Single(a.dst), "only the daylight-time reading exists"),
+                (false, false) => assert!(got == crate::MappedLocalTime::None, "the wall-clock value is skipped"),
+            }
+        }
+    }
 }
 
